@@ -844,7 +844,10 @@ def arr_index(I, a, k):
     plan = []   # per source dim: ('int', i) | ('slice', start)
     shape = []
     for d, (kk, n) in enumerate(zip(k, a.shape)):
-        if isinstance(kk, VSlice):
+        if isinstance(kk, VSlice) and kk.step == -1 and kk.start is None and kk.stop is None:
+            plan.append(('rev', n))
+            shape.append(n)
+        elif isinstance(kk, VSlice):
             st, ln = slice_bounds(I, kk, n, f'dim {d}')
             plan.append(('slice', st))
             shape.append(ln)
@@ -865,6 +868,8 @@ def arr_index(I, a, k):
         for kind, v in plan:
             if kind == 'int':
                 src.append(v)
+            elif kind == 'rev':
+                src.append(num_binop(I, '-', num_binop(I, '-', v, 1), next(it)))
             else:
                 src.append(num_binop(I, '+', next(it), v))
         return afn(tuple(src))
